@@ -838,7 +838,11 @@ class LanguageGraph():
                 assoc_node = next((assoc for assoc in self.associations \
                     if assoc.name == association['name'] and
                         assoc.left_field.asset == left_asset and
-                        assoc.right_field.asset == right_asset),
+                        assoc.right_field.asset == right_asset and
+                        assoc.left_field.fieldname == \
+                            association['leftField'] and
+                        assoc.right_field.fieldname == \
+                            association['rightField']),
                         None)
                 if assoc_node:
                     # The association was already created, skip it
